@@ -58,6 +58,13 @@ def body_cases(rnd, quick):
                             if pend and kind_ in ("bytes", "empty"):
                                 continue
                             cases.append({"kind0": "body", "accept": coding, "resp": resp(n, kind_, cuts, content=content, pend=pend)})
+    # large incompressible chunks: the coder's output buffer is smaller than one chunk (kept in every tier)
+    for coding in ("gzip", "br", "zstd", "deflate"):
+        for n, cuts in ((70000, [70000]), (200000, [100000, 100000]), (40000, [40000])):
+            for kind in ("bytes", "stream"):
+                if kind == "bytes" and len(cuts) != 1:
+                    continue
+                cases.append({"kind0": "body", "accept": coding, "resp": resp(n, kind, cuts, content="random", keep=True)})
     # pass-through set and length headers
     for status in (204, 206, 101):
         cases.append({"kind0": "body", "accept": "gzip", "resp": resp(2000, "bytes", status=status)})
@@ -86,7 +93,7 @@ def body_cases(rnd, quick):
         for n in (0, 1, 100, 2048, 2049, 2050, 100000):
             cases.append({"kind0": "reqbody", "coding": coding, "n": n, "content": rnd.choice(["text", "random", "zeros"])})
     if quick:
-        keep = [c for c in cases if c["kind0"] != "body" or "user_cl" in c["resp"] or "pre_encoded" in c["resp"] or c["resp"]["status"] != 200]
+        keep = [c for c in cases if c["kind0"] != "body" or "user_cl" in c["resp"] or "pre_encoded" in c["resp"] or c["resp"]["status"] != 200 or c["resp"].get("keep")]
         rest = [c for c in cases if c not in keep]
         cases = keep + rnd.sample(rest, min(len(rest), 400))
     return cases
